@@ -1499,6 +1499,10 @@ func (rn *runner) spRound(genuine, foreign [][]byte) {
 	}
 	r.Shuffle(len(resp), func(i, j int) { resp[i], resp[j] = resp[j], resp[i] })
 	resB := rn.builder.ResolvedCount()
+	pendB := map[string][]db.BucketID{}
+	for _, q := range rn.requests() {
+		pendB[string(q.key)] = q.bks
+	}
 	if perr := hxlib.Catch(func() { rn.sp.HandleData(resp) }); perr != "" {
 		rn.failf("HandleData panicked: %s", perr)
 		return
@@ -1524,6 +1528,18 @@ func (rn *runner) spRound(genuine, foreign [][]byte) {
 		for bk := 0; bk < 2; bk++ {
 			if rn.probe(ref{bk, hid}) {
 				rn.checkStoredIsTrusted(ref{bk, hid}, "after HandleData")
+			}
+		}
+	}
+	// requested data inside the response is stored whatever else the response contains
+	for _, it := range resp {
+		if it.BkID.Hasher() == nil {
+			continue
+		}
+		p := w.pid(it.Bytes)
+		for _, b := range pendB[string(w.hbytes[w.phid[p]])] {
+			if q, ok := rn.present[ref{bkIndex(b), w.phid[p]}]; !ok || q != p {
+				rn.failf("HandleData: the response contained the requested node %x (among forged and unrequested items) but it is not readable in bucket %q", w.hbytes[w.phid[p]], b)
 			}
 		}
 	}
